@@ -50,6 +50,11 @@ func sweepHealth(c *Ctx, plugins ...string) {
 			case "undecided":
 				c.Rep.fail(Finding{Rule: "R0", Key: "R0|" + p + "|undecided|" + firstLine(r.Msg), Kind: "undecided", Plugin: p, Script: r.Script,
 					Msg: fmt.Sprintf("plugin %s: the abstract interpreter could not follow the generator (%s); nothing is claimed for this path", p, r.Msg), Detail: "abstract path: " + r.describe()})
+			case "panic":
+				// the generator (or the model of an API it calls) cannot get past this point: whatever it would emit afterwards
+				// is not analysed. C09 reports the panic as such; for the emitted-code rules the path family is uncovered
+				c.Rep.fail(Finding{Rule: "R0", Key: "R0|" + p + "|panic|" + c.R.repo.funcAt(r.Pos) + "|" + firstLine(r.Msg), Kind: "undecided", Where: []string{c.R.repo.pos(r.Pos)}, Plugin: p, Script: r.Script,
+					Msg: fmt.Sprintf("plugin %s: an abstract path ends in a generator panic (%s): what is emitted on it is not analysed, so nothing is claimed for this path", p, r.Msg), Detail: "abstract path: " + r.describe()})
 			case "accepted":
 				acc++
 				if !r.Dup {
@@ -174,6 +179,19 @@ func rR1(c *Ctx, plugins ...string) {
 				}
 				c.Rep.fail(Finding{Rule: "R1", Key: fmt.Sprintf("R1|%s|%s|single-value-assertion", p, fn), Where: where, Plugin: p, Script: rs.Run.Script,
 					Msg:    fmt.Sprintf("plugin %s emits the single-value type assertion %s: it panics for a nil interface value (an item, element or result of interface type that is nil) — the generated function then neither returns nor delivers what it was given", p, exprStr(bad)),
+					Detail: "abstract path: " + rs.Run.describe() + "\nresidual:\n" + rs.Run.excerpt(40)})
+				continue
+			}
+			if bad, why := selectorProvenanceIssue(rs); bad != nil {
+				line := rs.Fset.Position(bad.Pos()).Line
+				fn := "?"
+				where := []string{}
+				if line > 0 && line-1 < len(rs.Run.LinePos) {
+					fn = c.R.repo.funcAt(rs.Run.LinePos[line-1])
+					where = append(where, rs.Run.where(c.Repo, line))
+				}
+				c.Rep.fail(Finding{Rule: "R1", Key: fmt.Sprintf("R1|%s|%s|selector-provenance", p, fn), Where: where, Plugin: p, Script: rs.Run.Script,
+					Msg:    fmt.Sprintf("plugin %s: %s — the emitted selector relies on field promotion through an embedded struct: when the outer struct declares a field of the same name the selector means that field, the embedded struct's field is never reached (not compared, hashed, copied or printed), and with two embedded structs sharing the name the text does not compile", p, why),
 					Detail: "abstract path: " + rs.Run.describe() + "\nresidual:\n" + rs.Run.excerpt(40)})
 				continue
 			}
@@ -942,4 +960,134 @@ func panickingAssertion(f *ast.File) ast.Expr {
 		return true
 	})
 	return bad
+}
+
+// selectorProvenanceIssue — a field selected on a value must be a field of that value's own struct type. The emitted text names
+// fields by the Name() of a *types.Var the generator took from some struct type S; selecting that name on a value of another
+// struct type (the struct that embeds S, reached through Go's field promotion) resolves to the shallowest field of that name,
+// which is a different field as soon as the outer struct declares one with the same name. Decided on what the residual lets the
+// rule type: the function's parameters (their declared type holes) and chains of selections starting from them.
+func selectorProvenanceIssue(rs *Resid) (ast.Expr, string) {
+	norm := func(o string) string {
+		o = strings.TrimPrefix(strings.TrimPrefix(strings.TrimPrefix(o, "mangled:"), "bypass:"), "mangled:")
+		return tieRe.ReplaceAllString(strings.ReplaceAll(o, ".Underlying()", ""), "[*]")
+	}
+	fieldRe := regexp.MustCompile(`^(.*)\[(\d+|\*)\]\.Name\(\)$`)
+	var bad ast.Expr
+	why := ""
+	for _, fn := range rs.Funcs {
+		paramType := map[string]string{} // parameter name -> normalised origin of its type ("" unknown)
+		var collect func(ft *ast.FuncType)
+		collect = func(ft *ast.FuncType) {
+			if ft == nil || ft.Params == nil {
+				return
+			}
+			for _, f := range ft.Params.List {
+				t := f.Type
+				if st, ok := t.(*ast.StarExpr); ok {
+					t = st.X
+				}
+				id, ok := t.(*ast.Ident)
+				if !ok {
+					continue
+				}
+				h := rs.hole(id.Name)
+				if h == nil || h.Kind != "TYPE" {
+					continue
+				}
+				org := norm(h.Origin)
+				if _, isPtr := f.Type.(*ast.StarExpr); isPtr {
+					org = "*" + org
+				}
+				for _, n := range f.Names {
+					paramType[n.Name] = org
+				}
+			}
+		}
+		collect(fn.Type)
+		shadowed := map[string]bool{}
+		ast.Inspect(fn.Body, func(n ast.Node) bool {
+			switch x := n.(type) {
+			case *ast.FuncLit:
+				collect(x.Type)
+			case *ast.AssignStmt:
+				if x.Tok == token.DEFINE {
+					for _, l := range x.Lhs {
+						if id, ok := l.(*ast.Ident); ok {
+							shadowed[id.Name] = true
+						}
+					}
+				}
+			case *ast.RangeStmt:
+				for _, l := range []ast.Expr{x.Key, x.Value} {
+					if id, ok := l.(*ast.Ident); ok {
+						shadowed[id.Name] = true
+					}
+				}
+			}
+			return true
+		})
+		// typeOf: normalised origin of the struct type a selection base has ("" unknown); pointers are auto-dereferenced
+		var typeOf func(e ast.Expr) string
+		typeOf = func(e ast.Expr) string {
+			switch x := ast.Unparen(e).(type) {
+			case *ast.Ident:
+				if shadowed[x.Name] {
+					return ""
+				}
+				return paramType[x.Name]
+			case *ast.StarExpr:
+				t := typeOf(x.X)
+				if t == "" {
+					return ""
+				}
+				if strings.HasPrefix(t, "*") {
+					return t[1:]
+				}
+				return t + ".Elem()"
+			case *ast.SelectorExpr:
+				h := rs.hole(x.Sel.Name)
+				if h == nil || h.Kind != "NAME" {
+					return ""
+				}
+				if m := fieldRe.FindStringSubmatch(norm(h.Origin)); m != nil {
+					return m[1] + "[" + m[2] + "].Type()"
+				}
+			}
+			return ""
+		}
+		ast.Inspect(fn.Body, func(n ast.Node) bool {
+			sel, ok := n.(*ast.SelectorExpr)
+			if !ok || bad != nil {
+				return bad == nil
+			}
+			h := rs.hole(sel.Sel.Name)
+			if h == nil || h.Kind != "NAME" {
+				return true
+			}
+			m := fieldRe.FindStringSubmatch(norm(h.Origin))
+			if m == nil {
+				return true
+			}
+			base := typeOf(sel.X)
+			if base == "" {
+				return true
+			}
+			owner := m[1]
+			if strings.HasPrefix(base, "*") {
+				base = base[1:] + "#" // the declared pointer is dereferenced automatically, and only once
+			}
+			if owner == strings.TrimSuffix(base, "#") || (!strings.HasSuffix(base, "#") && owner == base+".Elem()") {
+				return true
+			}
+			base = strings.TrimSuffix(base, "#")
+			bad = sel
+			why = fmt.Sprintf("%s names a field of %s, but is selected on a value of type %s", exprStr(sel), shortSym(owner), shortSym(base))
+			return false
+		})
+		if bad != nil {
+			break
+		}
+	}
+	return bad, why
 }
